@@ -254,6 +254,9 @@ def judge_mini(ctx, r, rp, col, stats, k):
     stats['old_key_checks'] += r['checked_old']
     stats['alg_changes'] += len(set(r['negotiated'])) - 1
     for kind, msg in r['problems']:
+        if kind == 'harness':
+            ctx.broke('harness:mini', msg)
+            continue
         ctx.failing_input(f'asyncssh vs independent peer: {msg}', dict(rp, **{'class': kind, 'clause': kind}))
     want = sum(1 for x in sc['plan'] if x in ('mini', 'async'))
     if r['exchanges'] != want:
@@ -264,9 +267,10 @@ def judge_mini(ctx, r, rp, col, stats, k):
         ctx.count('mini.tail.%s.%s' % (r['tail']['kind'], 'rejected' if r['tail']['rejected'] else 'ACCEPTED'))
         if not r['tail']['rejected']:
             what = {'newkeys': 'a bare NEWKEYS outside any exchange',
+                    'kexinit_early': 'a KEXINIT in place of the NEWKEYS that ends the running exchange',
                     'kexinit2': 'a second KEXINIT inside a running exchange'}.get(
                         r['tail']['kind'], 'a packet protected with the keys of the previous exchange')
-            cls = {'newkeys': 'unsolicited_newkeys', 'kexinit2': 'second_kexinit'}.get(r['tail']['kind'], 'stale_keys')
+            cls = {'newkeys': 'unsolicited_newkeys', 'kexinit2': 'second_kexinit', 'kexinit_early': 'early_kexinit'}.get(r['tail']['kind'], 'stale_keys')
             ctx.failing_input(f'asyncssh accepted {what} from the independent peer (connection_lost: {r["tail"]["lost"]})',
                               dict(rp, **{'class': cls, 'clause': 'fresh'}))
     info = judge_side(ctx, r['tap'], r['ops'], rp, 'asyncssh endpoint', stats)
